@@ -8,7 +8,7 @@ ASSUME = [
     'a replica fed by the log = the node restarted (replays the durable log); a replica fed by a snapshot = forced raft snapshot followed by a restart',
     'message of death: an entry of type MessageOfDeath carrying the client message id reaches the FSM (what a replay of a marked entry looks like)',
 ]
-RULE = 'all sequences of the given depth over {postA, retryA, pingA (a PING line, which is a message like any other), junkA (a prefix without a command: the parser yields no message), postB, retryB, postS, retryS (S = a services link whose lines carry a prefix), deathA, snapshot, foldsnapshot (compaction time far in the future: every entry is folded into the snapshot state), restart}; oracle after every operation (log entries per client message id == 1, marker == last id, retry answered 200) and delivery exactly once in post order at the end'
+RULE = 'second pass over {pingA (a PING line), junkA (a prefix without a command), pastA (a message stamped 1.5 s before the session\'s last activity), retryA, deathA, snapshot, foldsnapshot, restart}; all sequences of the given depth over {postA, retryA,  postB, retryB, postS, retryS (S = a services link whose lines carry a prefix), deathA, snapshot, foldsnapshot (compaction time far in the future: every entry is folded into the snapshot state), restart}; oracle after every operation (log entries per client message id == 1, marker == last id, retry answered 200) and delivery exactly once in post order at the end'
 
 def prebuild():
     apidrive.build()
@@ -17,7 +17,7 @@ def run(tier):
     os.environ.setdefault('VERIF_BUDGET_S', '300' if tier == 'quick' else '3000')  # a cap that is hit ends the run with exhaustive:false, exit 0
     # upgrade path: a network that started with the legacy JSON encoding and is restarted with protobuf (the stores
     # are converted when they are opened), one operation shallower
-    variants = [('json store converted to protobuf at the first restart', {'VERIF_ENCODING': 'json-upgrade', 'VERIF_DEPTH': '3'}), ('', {})]
+    variants = [('json store converted to protobuf at the first restart', {'VERIF_ENCODING': 'json-upgrade', 'VERIF_DEPTH': '3'}), ('kinds of last message', {'VERIF_C10_ALPHA': 'kinds'}), ('', {})]
     if tier == 'thorough':
         # the legacy JSON encoding (messages, store values, snapshots) at the quick depth, then protobuf one deeper
         variants = [('json encoding', {'VERIF_ENCODING': 'json', 'VERIF_DEPTH': '4'}), ('json store converted to protobuf at the first restart', {'VERIF_ENCODING': 'json-upgrade', 'VERIF_DEPTH': '4'}), ('', {})]
